@@ -204,7 +204,14 @@ pub fn free_port() -> u16 {
 pub async fn wait_listening(addr: SocketAddr, limit: Duration) -> bool {
     let start = Instant::now();
     while start.elapsed() < limit {
-        if let Ok(s) = TcpStream::connect(addr).await {
+        // probe from a loopback alias no test uses, so that a rate limiter keyed on the peer
+        // address does not charge the probe to a tested address
+        let probe = async {
+            let socket = TcpSocket::new_v4()?;
+            socket.bind("127.0.0.250:0".parse().expect("addr"))?;
+            socket.connect(addr).await
+        };
+        if let Ok(s) = probe.await {
             drop(s);
             return true;
         }
@@ -217,8 +224,14 @@ pub async fn wait_listening(addr: SocketAddr, limit: Duration) -> bool {
 // PROXY protocol headers (haproxy spec 2.x), written by hand
 
 pub fn proxy_v1(src: SocketAddr, dst: SocketAddr) -> Vec<u8> {
-    let fam = if src.is_ipv4() { "TCP4" } else { "TCP6" };
-    format!("PROXY {fam} {} {} {} {}\r\n", src.ip(), dst.ip(), src.port(), dst.port()).into_bytes()
+    // both addresses must be of the announced family
+    let (fam, dst_ip) = match (src.ip(), dst.ip()) {
+        (IpAddr::V4(_), IpAddr::V4(d)) => ("TCP4", IpAddr::V4(d)),
+        (IpAddr::V4(_), IpAddr::V6(_)) => ("TCP4", IpAddr::V4(std::net::Ipv4Addr::LOCALHOST)),
+        (IpAddr::V6(_), IpAddr::V6(d)) => ("TCP6", IpAddr::V6(d)),
+        (IpAddr::V6(_), IpAddr::V4(d)) => ("TCP6", IpAddr::V6(d.to_ipv6_mapped())),
+    };
+    format!("PROXY {fam} {} {dst_ip} {} {}\r\n", src.ip(), src.port(), dst.port()).into_bytes()
 }
 
 pub const V2_SIG: [u8; 12] = [0x0D, 0x0A, 0x0D, 0x0A, 0x00, 0x0D, 0x0A, 0x51, 0x55, 0x49, 0x54, 0x0A];
